@@ -143,7 +143,8 @@ func prepare(tag string) (string, string) {
 	}
 	must(os.WriteFile(filepath.Join(root, "go.mod"), append(gm, add...), 0o644))
 	// Instrument.
-	args := append([]string{"-root", root, "-hb", hbSpec, "-replace", replaceSpec}, rewritePkgs...)
+	args := append([]string{"-root", root, "-hb", hbSpec, "-replace", replaceSpec,
+		"-yield", "go.etcd.io/bbolt.DB.Update,go.etcd.io/bbolt.DB.View,go.etcd.io/bbolt.DB.Close"}, rewritePkgs...)
 	must(run(root, filepath.Join(verifDir, "bin", "simrewrite"), args...))
 	bin := filepath.Join(scratch, "h.test")
 	must(run(root, goBin(), "test", "-c", "-trimpath", "-tags", "verif", "-o", bin, "./zzverif/h"))
